@@ -424,6 +424,9 @@ func (c *Client) beginPQHiddenHandshake(buf []byte) error {
 		logrus.Errorf("client: unable to make a hidden request: %s", err)
 		return err
 	}
+	// A hidden server stays silent on anything it does not like, and the
+	// request or the response may be lost: never wait without the timeout
+	c.setHSDeadline()
 
 	// Server Response hidden
 	msgLen, _, _, _, err := c.underlyingConn.ReadMsgUDP(buf, nil)
